@@ -2,7 +2,7 @@
 From Coq Require Import String ZArith List Bool.
 From Coq Require Extraction.
 From Coq Require Import ExtrOcamlBasic ExtrOcamlString.
-From HV Require Import Gen.GenCopies Spec.IsolationSpec Model.IsolationModel.
+From HV Require Import Gen.GenCopies Gen.GenFrontierFlow Spec.IsolationSpec Model.IsolationModel.
 Import ListNotations.
 Open Scope Z_scope.
 
@@ -56,6 +56,40 @@ Definition c20_spec (a : list Z) : list Z :=
                           (fun s => if (0 <=? s) && (s <? n) then nth (Z.to_nat s) sids s else s) in
       let ts := decode_tests (Z.to_nat nt) n' P' rest2 in
       flat_map (fun t => let p := spec_paths sys (t_body t) s0 (t_depth t) in natZ (List.length p) :: p) ts
+  | _ => []
+  end.
+
+(* c20_run_cfg: [n; K; P; s0; ntests; NC; cc; step tables of the NC configs (NC * n*K, -1 = none); sid table (n);
+                 per test: cfg; depth; budget (-1 = none); body table (n*P, -1 = none)]
+   -> per test: [npaths; codes...]   (the exploring config is Model.frontier_cfg: what the code does) *)
+Fixpoint decode_ctests (nt : nat) (n P : nat) (l : list Z) : list ctest :=
+  match nt with
+  | O => []
+  | S nt' =>
+      match l with
+      | e :: d :: b :: rest =>
+          let tbl := firstn (n * P) rest in
+          mkCTest e (mkTest (Z.to_nat d) (fun s => if s <? natZ n then row tbl P s else [])
+                            (if b <? 0 then None else Some (Z.to_nat b)))
+          :: decode_ctests nt' n P (skipn (n * P) rest)
+      | _ => []
+      end
+  end.
+
+Definition c20_run_cfg (a : list Z) : list Z :=
+  match a with
+  | n :: K :: P :: s0 :: nt :: NC :: cc :: rest =>
+      let n' := Z.to_nat n in let K' := Z.to_nat K in let P' := Z.to_nat P in
+      let sz := (n' * K')%nat in
+      let steps := firstn (Z.to_nat NC * sz) rest in
+      let rest1 := skipn (Z.to_nat NC * sz) rest in
+      let sids := firstn n' rest1 in
+      let rest2 := skipn n' rest1 in
+      let cstep := fun e s => if (0 <=? e) && (e <? NC) && (s <? n)
+                              then row (chunk steps (Z.to_nat e * sz) sz) K' s else [] in
+      let sd := fun s => if (0 <=? s) && (s <? n) then nth (Z.to_nat s) sids s else s in
+      let ts := decode_ctests (Z.to_nat nt) n' P' rest2 in
+      flat_map (fun p => natZ (List.length p) :: p) (run_contract_c frontier_cfg cstep sd cc s0 ts)
   | _ => []
   end.
 
@@ -118,6 +152,7 @@ Definition c20_depths (a : list Z) : list Z :=
 Definition table : list (string * (list Z -> list Z)) :=
   [ ("c20_run"%string, c20_run);
     ("c20_spec"%string, c20_spec);
+    ("c20_run_cfg"%string, c20_run_cfg);
     ("c20_visible"%string, c20_visible);
     ("c20_depths"%string, c20_depths) ].
 
